@@ -1,0 +1,46 @@
+//go:build verif
+
+package s2
+
+// Exported wrappers of the unexported point-containment evaluation paths, for the
+// model-based verification harness in /verif (build tag verif only).  Read-only.
+
+// VerifContainsBruteForce is containsBruteForce: crossing parity from the shape's
+// reference point over all edges of the shape (semi-open boundaries).
+func VerifContainsBruteForce(shape Shape, p Point) bool { return containsBruteForce(shape, p) }
+
+// VerifLoopBruteForceContains is Loop.bruteForceContainsPoint: crossing parity from
+// OriginPoint over all edges, starting from originInside.
+func VerifLoopBruteForceContains(l *Loop, p Point) bool { return l.bruteForceContainsPoint(p) }
+
+// VerifLoopIndexContains is the index path of Loop.ContainsPoint regardless of the
+// number of vertices (LocatePoint followed by iteratorContainsPoint).
+func VerifLoopIndexContains(l *Loop, p Point) bool {
+	it := l.index.Iterator()
+	if !it.LocatePoint(p) {
+		return false
+	}
+	return l.iteratorContainsPoint(it, p)
+}
+
+// VerifPolygonBruteForceContains is the brute-force branch of Polygon.ContainsPoint.
+func VerifPolygonBruteForceContains(p *Polygon, point Point) bool {
+	inside := false
+	for _, l := range p.loops {
+		inside = inside != l.bruteForceContainsPoint(point)
+	}
+	return inside
+}
+
+// VerifPolygonIndexContains is the index path used by Polygon.ContainsCell /
+// IntersectsCell (LocatePoint followed by iteratorContainsPoint).
+func VerifPolygonIndexContains(p *Polygon, point Point) bool {
+	it := p.index.Iterator()
+	if !it.LocatePoint(point) {
+		return false
+	}
+	return p.iteratorContainsPoint(it, point)
+}
+
+// VerifLoopOriginInside reads Loop.originInside.
+func VerifLoopOriginInside(l *Loop) bool { return l.originInside }
